@@ -784,8 +784,14 @@ async fn extern_module(
     let vm = db.thread();
 
     let module = (loader.load_fn)(vm)?;
-    let mut value = module.value.clone();
-    unsafe { value.vm_mut().unroot() }; // FIXME
+    // Like the value of any other module the value is shared by every thread so it must live in
+    // the global heap and not in the heap of the thread which happened to import the module first
+    let mut value: RootedValue<RootedThread> = {
+        let mut gc = vm.global_env().gc.lock().unwrap();
+        let mut cloner = vm::internal::Cloner::new(vm, &mut gc);
+        vm.root_value(cloner.deep_clone(module.value.get_value())?)
+    };
+    unsafe { value.vm_mut().unroot() };
 
     Ok(UnrootedGlobal {
         id,
